@@ -153,6 +153,15 @@ def programs(tier):
     for dest in ('bytesio', 'path', 'newpath'):
         for cb in (None, 'count', 'raise'):
             progs.append({'cfg': scen.ops_cfg('bytes', 4096), 'steps': [con, ('pull', '/f', dest, {'cb': cb} if cb else {})]})
+    # a suspended stream under other commands (packets parked and registered streams), with device ids unlike the host's
+    for famx in ('extreme', 'small'):
+        for chkx, clsx in (('one', 'after-ack'), ('one', 'eager'), ('two', 'after-ack')):
+            progs.append({'cfg': scen.ops_cfg(chkx, 4096, clsx, family=famx), 'steps': [con, ('gen-start', 'c', {'decode': False}), scen.op_tuple('exec_out'), ('gen-rest', 0), scen.op_tuple('stat')]})
+        cfgx = scen.ops_cfg('two', 4096, 'eager', family=famx)
+        progs.append({'cfg': cfgx, 'steps': [con, ('gen-start', 'c', {'decode': False}), scen.op_tuple('exec_out'), scen.op_tuple('stat'), ('gen-rest', 0), scen.op_tuple('shell')]})
+    for cbk in ('raise-base',):
+        progs.append({'cfg': scen.ops_cfg('one', 4096), 'steps': [con, ('push', ('bytes', scen.push_data(5000)), '/g', {'cb': cbk, 'mtime': 3}), scen.op_tuple('stat')]})
+        progs.append({'cfg': scen.ops_cfg('bytes', 4096), 'steps': [con, ('pull', '/f', 'bytesio', {'cb': cbk}), scen.op_tuple('stat')]})
     for dest in ('newdir',):
         # a local destination that cannot be opened (its directory does not exist): same exception, and the same bytes on the wire before it
         progs.append({'cfg': scen.ops_cfg('two', 4096), 'steps': [con, ('pull', '/f', dest), scen.op_tuple('stat'), scen.op_tuple('shell')]})
